@@ -57,7 +57,7 @@ CHECKS["C06"] = dict(
     technique="LuaSem coroutine rules (continuation per thread, status machine, value transfer) evaluated by TLC on generated coroutine scripts; status-machine invariants (CoInv) checked by TLC on every state; real traces validated by LuaSemTrace",
     category="model_checking",
     text="Scripts over 1-3 coroutines (create/wrap) whose bodies yield, resume any coroutine (incl. resumer, self, dead), query status, yield from nested/tail calls, loop with locals across yields, return or fail, driven by a main script, are run on the real interpreter; the trace (payload order and number, statuses, error propagation) must be the one LuaSem defines, and TLC checks on every spec state that exactly one thread runs, normal = resumer chain, dead keeps nothing. In addition every program's run is recorded instruction by instruction (state before each instruction of the main thread, through the deterministic context's dispatch poll) and TLC judges each distinct step against FramesStep.tla: a live, uncaptured local changes only if the instruction names its register as a target, and a readable local stays below the register top.",
-    design_ref="DESIGN.md section 4 C06", note=LSEM_NOTE + " No yield across pcall/metamethods/iterators (Lua 5.1 rejects it).", specs=["LuaSem", "LuaSemTrace", "FramesStep", "FramesStepTrace", "Frames", "FramesTrace", "LuaCoTransferTrace"])
+    design_ref="DESIGN.md section 4 C06", note=LSEM_NOTE + " No yield across pcall/metamethods/iterators (Lua 5.1 rejects it).", specs=["LuaSem", "LuaSemTrace", "FramesStep", "FramesStepTrace", "Frames", "FramesTrace"])
 CHECKS["C11"] = dict(
     technique="design spec Cancel model-checked by TLC (dispatch bound, liveness); cancellation at every dispatch poll of a looping corpus on the real VM judged by TLC (LuaSemCancel) against the prefix of the uncancelled TLA+ behaviour; bounded-wait runs for blocking channel operations",
     category="model_checking",
@@ -123,7 +123,7 @@ CHECKS["C12"] = dict(
     text="CallStackImpl (fixed and segmented, sizes 1..17) and RegistryImpl (grow/resize, scaled sizes) are model-checked against bounded-sequence/list specs; each transition of those graphs plus seeded random histories is replayed on the real code and validated by TLC. 10,296 raw option tuples x context are compared with TLC's normalisation and thread inheritance. Limit probes must overflow only above the configured size, always as an error pcall catches, after which a follow-up computation is right; programs within limits must produce identical traces under every configuration (reference traces cross-validated by LuaSem).",
     design_ref="DESIGN.md section 4 C12",
     note="Trusted: TLC, the wrappers in verif_access.go, the lua-run harness. VM protocol preconditions assumed (Pop on non-empty, SetSp(n<=Sp)). One slot of register-file slack per overflow error already raised is admitted.",
-    specs=["CallStack", "CallStackImpl", "CallStackTrace", "Registry", "RegistryImpl", "RegistryMC", "RegistryTrace", "LuaOptions", "LuaOptionsGen", "LuaLimitsTrace"])
+    specs=["CallStack", "CallStackImpl", "CallStackTrace", "Registry", "RegistryImpl", "RegistryMC", "RegistryTrace", "LuaOptions", "LuaOptionsGen", "LuaLimitsTrace", "LuaCoTransferTrace"])
 
 CHECKS["C07"] = dict(
     technique="TLA+ well-formedness predicate (Bytecode; instruction words decoded inside TLA+) evaluated by TLC on every nested FunctionProto the real parser+compiler emit; TLC model-checks that WF implies safety of an abstract VM (BytecodeVM)",
